@@ -56,6 +56,7 @@ func vrt_NewTCPConn() *net.TCPConn {
 }
 
 func vrt_ConnPushRead(c *net.TCPConn, data []byte) {
+	vrtGate("push")
 	nc := vrtConns[c]
 	if nc.live {
 		if len(data) > 0 {
@@ -73,15 +74,31 @@ func vrt_ConnLive(c *net.TCPConn) { vrtConns[c].live = true }
 
 // vrt_ConnEOF: the peer closes its side.
 func vrt_ConnEOF(c *net.TCPConn) {
+	vrtGate("eof")
 	vrtConns[c].client.CloseWrite()
 	time.Sleep(40 * time.Millisecond)
 }
 
 // vrt_Yield lets the other goroutines run until they block (engine: cooperative scheduler).
-func vrt_Yield() { time.Sleep(60 * time.Millisecond) }
+func vrt_Yield() {
+	if vrtSchedOn() {
+		vrtGate("yield")
+		vrtAwaitTurn()
+		return
+	}
+	time.Sleep(60 * time.Millisecond)
+}
 
-// vrt_Wake releases goroutines parked in time.Sleep (engine); natively time passes by itself.
-func vrt_Wake() { time.Sleep(3300 * time.Millisecond) }
+// vrt_Wake releases goroutines parked in time.Sleep (engine); natively time passes by itself
+// (schedule replay: sleepers wait for this call instead of the wall clock).
+func vrt_Wake() {
+	if vrtSchedOn() {
+		vrtGate("wake")
+		vrtWakeAll()
+		return
+	}
+	time.Sleep(3300 * time.Millisecond)
+}
 
 // vrt_ConnStart begins delivering the script (natively); the harness then runs the reader.
 func vrt_ConnStart(c *net.TCPConn) {
@@ -105,4 +122,9 @@ func vrt_ConnWritten(c *net.TCPConn) []byte {
 	return append([]byte{}, nc.written...)
 }
 
-func vrt_ConnFailWrites(c *net.TCPConn) {}
+// vrt_ConnFailWrites: from now on writes to the connection fail (natively: the write half is shut).
+func vrt_ConnFailWrites(c *net.TCPConn) {
+	vrtGate("failwrites")
+	c.CloseWrite()
+}
+
